@@ -78,6 +78,8 @@ def menuconfig(kconf: "Kconfig", headless: bool = False) -> bool:
     conf_changed, load_msg = state.load_config()
     state.conf_changed = conf_changed
     log.note(escape(load_msg))
+    # The rows were computed from the default values in __post_init__, before the sdkconfig was loaded
+    state.shown = state.shown_nodes(state.cur_menu)
 
     if not state.shown:
         state.show_all = True
